@@ -224,9 +224,13 @@ def cli_sample(arg):
             path = os.path.join(d, "in%d.emb" % i)
             with open(path, "w", encoding="utf-8", newline="") as f:
                 f.write(text)
-            r = subprocess.run([common.PY, os.path.join(common.REPO, "emboss-format"), "--no-edit-in-place",
-                                "--indent", str(w), "in%d.emb" % i], cwd=d, capture_output=True, text=True,
-                               env=common.child_env(), timeout=120)
+            try:
+                r = subprocess.run([common.PY, os.path.join(common.REPO, "emboss-format"), "--no-edit-in-place",
+                                    "--indent", str(w), "in%d.emb" % i], cwd=d, capture_output=True, text=True,
+                                   env=common.child_env(), timeout=300)
+            except subprocess.TimeoutExpired:
+                out["timeouts"] = out.get("timeouts", 0) + 1  # wall-clock watchdog on a loaded machine: inconclusive case
+                continue
             out["runs"] += 1
             try:
                 expect = format_emb.format_emboss_parse_tree(tree, format_emb.Config(indent_width=w, show_line_types=False))
@@ -260,7 +264,7 @@ def run(ctx):
     import threading
     cres = []
     cargs = [{"seed": ctx.seed, "start": s, "count": 6} for s in range(0, ncli, 6)]
-    t = threading.Thread(target=lambda: cres.extend(common.run_cases("c11", "cli_sample", cargs, timeout=900, jobs=4)))
+    t = threading.Thread(target=lambda: cres.extend(common.run_cases("c11", "cli_sample", cargs, timeout=2400, jobs=4)))
     t.start()
     res = common.run_cases("c11", "batch", args, timeout=1200, jobs=common.NCPU - 4)
     t.join()
@@ -291,6 +295,7 @@ def run(ctx):
             ctx.count("cli_batch_failed")
             continue
         ctx.count("cli_runs", val["val"]["runs"])
+        ctx.count("cli_watchdog_timeouts", val["val"].get("timeouts", 0))
         for x in val["val"]["viol"]:
             ctx.violation("C11:" + x["mech"], x["what"], x)
     common.repo_on_path()
